@@ -444,3 +444,35 @@ pub fn generate_valid(rng: &mut Rng, max_depth: usize) -> Result<GenComp, String
     }
     Err(last)
 }
+
+/// A component that contains exactly the given core modules (plus optional filler sections).
+pub fn wrap_modules(mods: &[Vec<u8>], rng: &mut Rng) -> Vec<u8> {
+    let mut c = Component::new();
+    for (i, m) in mods.iter().enumerate() {
+        if rng.chance(1, 3) {
+            c.section(&CustomSection { name: Cow::Owned(format!("between{}", i)), data: Cow::Owned(vec![i as u8, 1, 2]) });
+        }
+        c.section(&RawSection { id: ComponentSectionId::CoreModule.into(), data: m });
+    }
+    c.finish()
+}
+
+/// The core modules directly contained in a component, in order.
+pub fn extract_modules(comp: &[u8]) -> Result<Vec<Vec<u8>>, String> {
+    let mut out = vec![];
+    let mut depth = 0i32;
+    for p in wasmparser::Parser::new(0).parse_all(comp) {
+        match p.map_err(|e| e.to_string())? {
+            wasmparser::Payload::ModuleSection { unchecked_range, .. } => {
+                if depth == 0 {
+                    out.push(comp.get(unchecked_range.clone()).ok_or("module range")?.to_vec());
+                }
+                depth += 1;
+            }
+            wasmparser::Payload::ComponentSection { .. } => depth += 1,
+            wasmparser::Payload::End(_) => depth -= 1,
+            _ => {}
+        }
+    }
+    Ok(out)
+}
